@@ -313,8 +313,8 @@ def run(ctx):
         root = os.path.join(work, "cases", str(k))
         return k, scrape.emit_all(ctx["idlc"], root, [f["path"] for f in fs["files"]], fs["main"])
 
-    # the numbers do not depend on flags: the same file set once more with --no-typed-objects (even
-    # cases) or --marking (odd cases), all backends, tables scraped the same way
+    # the numbers do not depend on flags: the same file set once more with --no-typed-objects (k = 0 mod 3),
+    # --marking (1) or --allow-undefined-behavior (2), all backends, tables scraped the same way
     def emit_flagged(k):
         fs = cases[k]
         if fs.get("big"):
@@ -323,7 +323,7 @@ def run(ctx):
         gen.write_fileset(fs, root)
         mk = os.path.join(root, "MARK")
         open(mk, "w").write("Copyright (c) someone\nAll rights reserved.\n")
-        extra = ["--no-typed-objects"] if k % 2 == 0 else ["--marking", mk]
+        extra = [["--no-typed-objects"], ["--marking", mk], ["--allow-undefined-behavior"]][k % 3]
         return k, scrape.emit_all(ctx["idlc"], root, [f["path"] for f in fs["files"]], fs["main"], extra=extra)
 
     with ThreadPoolExecutor(max_workers=vlib.NCPU) as ex:
@@ -369,7 +369,7 @@ def run(ctx):
         scrape_cache[k] = tabs
         ef = emitted_flagged.get(k)
         if tabs and ef and all(v[0] == 0 for (lang, role), v in ef[fs["main"]].items() if lang != "java"):
-            suffix = "+no-typed-objects" if k % 2 == 0 else "+marking"
+            suffix = ["+no-typed-objects", "+marking", "+allow-undefined-behavior"][k % 3]
             tabs = tabs + [(lab + suffix, rows) for lab, rows in scrape_tables(os.path.join(work, "cases", str(k) + "_flags"), fs, ef, which)]
         labels[k] = [t[0] for t in tabs]
         # the driver's exit status must match the library-level outcome
